@@ -196,6 +196,8 @@ static const char * check_value(int r, const item_t * it, const vh_stepres_t * s
             const char * want = it->text; size_t wl = it->len;
             if (t == IT_HEX || t == IT_OCT || t == IT_BIN || t == IT_BLOCK) { want = it->payload; wl = it->plen; }
             if ((size_t) s->fullrawlen != wl || memcmp(s->raw, want, wl < sizeof s->raw ? wl : sizeof s->raw) != 0) return "raw token extent";
+            /* a string, a block or an expression is not a number: none of the six numeric conversions may claim to have delivered one */
+            if (t == IT_STR || t == IT_BLOCK || t == IT_EXPR) { vh_count("raw.numeric_conversions_of_text_block_or_expression_checked", 1); if (s->to_mask) return "numeric conversion of a non-number reported success"; }
             break;
         }
         case VR_COPYTEXT: if (s->count != it->plen || memcmp(s->raw, it->payload, it->plen < sizeof s->raw ? it->plen : sizeof s->raw) != 0) return "unescaped text"; break;
